@@ -182,6 +182,25 @@ impl<const N: usize> CobsAccumulator<N> {
     }
 }
 
+/// Verification-only, read-only view of the accumulator state.
+///
+/// Compiled only with `--cfg postcard_verif`; absent from every normal build.
+#[allow(unexpected_cfgs)]
+mod verif_hook {
+    #[cfg(postcard_verif)]
+    impl<const N: usize> super::CobsAccumulator<N> {
+        /// Number of bytes currently buffered (the raw fill level).
+        pub fn verif_idx(&self) -> usize {
+            self.idx
+        }
+
+        /// The bytes currently buffered.
+        pub fn verif_buffered(&self) -> &[u8] {
+            &self.buf[..self.idx.min(N)]
+        }
+    }
+}
+
 #[cfg(test)]
 mod test {
     use super::*;
